@@ -86,8 +86,12 @@ def gen(tier, rng):
         calls = ["R5000"] + [sess.E(l) for l in prog]
         for e in entry:
             calls += [sess.E(e), "R5000"]
-        calls += [sess.E("LIST"), "R5000", sess.E('PRINT "@ok"'), "R5000"]
-        cases.append(Case(sess.session(calls), sig="\n".join(prog) + "\n#enter: " + "; ".join(entry), tag="faulty",
+        # a direct statement that does not enter the program: straight-line, branching and looping ones
+        direct = rng.choice(['PRINT "@ok"', 'PRINT "@ok"', 'WHILE J9<3:J9=J9+1:WEND:PRINT "@ok"', 'J9=0:WHILE J9<2:J9=J9+1:WEND:PRINT "@ok"',
+                             'FOR I9=1 TO 3:NEXT:PRINT "@ok"', 'IF 0 THEN PRINT "no" ELSE PRINT "@ok"', 'I9=1:IF I9 THEN PRINT "@ok"',
+                             'WHILE 0:WEND:PRINT "@ok"', 'FOR I9=1 TO 2:WHILE 0:WEND:NEXT I9:PRINT "@ok"'])
+        calls += [sess.E("LIST"), "R5000", sess.E(direct), "R5000"]
+        cases.append(Case(sess.session(calls), sig="\n".join(prog) + "\n#enter: " + "; ".join(entry) + "\n#then: " + direct, tag="faulty",
                           meta=("faulty", faults, nums)))
     return cases
 
